@@ -212,6 +212,43 @@ def input_cycles(it, job):
     return None
 
 
+def nested(it, job):
+    """Two contexts on the same terminal, one inside the other: leaving the inner one restores what IT changed (the state the
+    outer one had set up), leaving the outer one restores the original state."""
+    _, outer, inner, sig, exc = job
+    osm = osmodel.OS()
+    osmodel.install(it, osm)
+
+    def make(kind):
+        if kind == "Input":
+            return _mk_input(it, osm, (sig, True))
+        return it.new("termhelpers", kind, stream())
+    before = osm.snapshot()
+    a = make(outer)
+    desc = "%s inside %s%s" % (inner, outer, " (sigint_event=True)" if sig else "")
+    r = _must(it.callm(a, "__enter__"), outer + ".__enter__")
+    if r[0] != "ok":
+        return ("X5-nested-contexts-restore", desc, "outer __enter__ raised %s" % (r[1],))
+    mid = osm.snapshot()
+    b = make(inner)
+    r = _must(it.callm(b, "__enter__"), inner + ".__enter__")
+    if r[0] != "ok":
+        return ("X5-nested-contexts-restore", desc, "inner __enter__ raised %s" % (r[1],))
+    r = _must(_exit(it, b, exc), inner + ".__exit__")
+    if r[0] != "ok":
+        return ("X5-nested-contexts-restore", desc, "inner __exit__ raised %s" % (r[1],))
+    d = diff(mid, osm.snapshot())
+    if d:
+        return ("X5-nested-contexts-restore", desc + ": after leaving the inner context", "the state the outer context had set up is not back: " + d)
+    r = _must(_exit(it, a, exc), outer + ".__exit__")
+    if r[0] != "ok":
+        return ("X5-nested-contexts-restore", desc, "outer __exit__ raised %s" % (r[1],))
+    d = diff(before, osm.snapshot())
+    if d:
+        return ("X5-nested-contexts-restore", desc + ": after leaving both", d)
+    return None
+
+
 def window(it, job):
     """A window alone or around an Input on the same terminal; renders; optional crash at the k-th write; exit."""
     _, cls, hide, keep, with_input, k = job
@@ -277,7 +314,7 @@ def window(it, job):
     return None
 
 
-SCENARIOS = {"helper": helper_cm, "input": input_plain, "body": input_body, "cycles": input_cycles, "window": window}
+SCENARIOS = {"helper": helper_cm, "input": input_plain, "body": input_body, "cycles": input_cycles, "window": window, "nested": nested}
 
 
 def jobs_for(tier):
@@ -299,6 +336,8 @@ def jobs_for(tier):
             jobs.append(("body", sig, dts, main, flags, k))
     for sig, same, trig in itertools.product((False, True), (True, False), (False, True)):
         jobs.append(("cycles", sig, same, trig))
+    for outer, inner, sig, exc in itertools.product(("Input", "Cbreak", "Nonblocking"), ("Input", "Cbreak", "Nonblocking"), (False, True), (False, True)):
+        jobs.append(("nested", outer, inner, sig, exc))
     for cls, hide, keep, with_input in itertools.product(("FullscreenWindow", "CursorAwareWindow"), (True, False), (False, True), (False, True)):
         if cls == "FullscreenWindow" and keep:
             continue
